@@ -144,21 +144,32 @@ CLAIMED = {
             'default / last exception as specified, for every configuration and every outcome sequence (C12_spec, C12_stops, …); '
             'the engine model applies exactly these decisions for any node in any pipeline (C12_engine_*); in switch / plain '
             'pipelines under all schedules every observed body call is within the budget and follows only retryable failures, and '
-            'get_default is computed only when the policy ends in the default (C12_switch_attempts). Tie: the whole grid of '
-            'configurations × outcome sequences (≤4) runs on the real engine with a virtual clock and is compared with Retry.run; '
+            'get_default is computed only when the policy ends in the default (C12_switch_attempts); the default is computed by one '
+            'call of get_default on the arguments of the attempts — its value is the node\'s value (C12_engine_default_value), and '
+            'when get_default itself raises that exception is the node\'s failure, reported and contained like a failure of the body '
+            '(C12_engine_default_raises; Program.dfltRaise). Tie: the whole grid of '
+            'configurations × outcome sequences (≤4), with returning and raising get_default, runs on the real engine with a '
+            'virtual clock and is compared with Retry.run; '
             'retry-heavy general pipelines are lock-stepped and monitored (same arguments on every attempt).',
             SCHED_NOTE + ' exceptions ⊆ Exception and attempts ≥ 0 as annotated.', '§6 C12'),
     'C13': sched('Proof (general, local tier): manager.run\'s cleanup leaves every other task finished or cancel-marked, on normal end, '
                  'error, and caller cancellation; a cancel-marked task\'s next section ends it silently (only its own `done`, no new '
-                 'task); marks are stable; caller cancellation surfaces as CancelledError only (C13_*). Tie additionally cancels the '
+                 'task); marks are stable; caller cancellation surfaces as CancelledError only (C13_*). All programs, all continuations: '
+                 'once manager.run has left, every further step of any task, body, timer or canceller creates no task and reports '
+                 'nothing but task endings (C13_after_cleanup_nothing_starts, C13_after_return_nothing_ever_starts, by induction over '
+                 'the continuation). Tie additionally cancels the '
                  'caller before every loop handle of a base schedule per program and drains the loop afterwards.', '§6 C13'),
     'C14': sched('Proof (general, local tier): on_pipeline_start first; on_pipeline_complete carries the returned outcome; a node '
                  'execution starts with on_node_start in the section that marks it processed; one on_node_complete per raising '
                  'attempt, error=None iff a value/default; the value is stored strictly after the successful on_node_complete '
                  'returned, even when callbacks suspend (C14_*). Switch / plain pipelines, all schedules: success is reported only for a '
                  'node that has a value, a reported error is one the body raised on its declared arguments or a collaborator\'s, the '
-                 'reported outcome is justified (C14_switch_reports_are_truthful); the ordering of events over a whole run is tied, '
-                 'not a theorem.', '§6 C14'),
+                 'reported outcome is justified (C14_switch_reports_are_truthful). All programs, all schedules (Proofs/Ledger.lean, an '
+                 'accounting invariant over the observation log and the frames of all suspended tasks): every successful '
+                 'on_node_complete(n) is paid for by an on_node_start(n) of its own, and on_node_start is emitted exactly as often as '
+                 'the storage counts invocations — with C04 / C11 at most once per node outside recurrent subgraphs '
+                 '(C14_one_success_per_start). The full ordering of the events of a whole run (pipeline events first / last) is '
+                 'tied, not a theorem.', '§6 C14'),
     'C15': ('Lean 4 proof about the worklist builder model (closure of the traversal, per-mark contributions) + differential correspondence',
             'Proof: Builder.build — the model of build_dag with its real LIFO worklist and per-mark graph construction — visits exactly '
             'the declared nodes the output can reach (completeness and soundness of the worklist, any size/shape), contains for every '
@@ -207,7 +218,12 @@ CLAIMED = {
                  'itself and the result is a real value (never a Recurrent marker, a contained failure or a duplicate), with the value '
                  'just stored (C19_*). Switch / plain pipelines, all schedules: every value handed to the store in any execution is the '
                  'node\'s final dataflow value — the one its consumers receive — never a marker or an exception object '
-                 '(C19_switch_saved_value_is_final, C19_switch_saves_agree); exactly-once over a whole run is tied, not a theorem. '
+                 '(C19_switch_saved_value_is_final, C19_switch_saves_agree). All programs, all schedules (Proofs/Ledger.lean): in every '
+                 'execution saves(n) ≤ successful completions(n) ≤ starts(n) = invocations(n) — each save is paid for by an execution '
+                 'of its own that reported success; with C04 saves(n) ≤ 1 + invalidations(n), and a node outside every recurrent '
+                 'subgraph is saved at most once per run, whoever requests it (C19_each_save_has_its_own_successful_execution, '
+                 'C19_at_most_one_save_outside_recurrent_subgraphs). At-least-once (every executed node of a successful run is '
+                 'saved) is tied, not a theorem. '
                  'Recurrent re-iterations re-save inner nodes: listed finding. A save still suspended when chart.run ends is '
                  'cancelled with its node task (the result is stored before the save is awaited): listed finding save_cut_off, '
                  'excused only at that call site.', '§6 C19'),
